@@ -52,11 +52,26 @@ def lean_grep():
 _AUDIT_CACHE = {}
 
 
+def all_property_theorems():
+    names = []
+    pd = os.path.join(LEAN, "Properties")
+    for f in sorted(os.listdir(pd)):
+        if f.endswith(".lean"):
+            names += theorems_declared(os.path.join("Properties", f))
+    return names
+
+
 def audit():
-    """run Audit.lean (#print axioms for every property theorem) -> {theorem: [axioms]}"""
+    """`#print axioms` for every theorem declared under Properties/ -> {theorem: [axioms]}.
+    The audit file is generated from the sources on every run (nothing to forget to list)."""
     if "r" in _AUDIT_CACHE:
         return _AUDIT_CACHE["r"]
-    r = subprocess.run(["lake", "env", "lean", "Audit.lean"], cwd=LEAN, capture_output=True, text=True, timeout=1800)
+    names = all_property_theorems()
+    gen = os.path.join(LEAN, ".lake", "AuditGen.lean")
+    os.makedirs(os.path.dirname(gen), exist_ok=True)
+    with open(gen, "w") as f:
+        f.write("import Properties\n" + "".join(f"#print axioms {n}\n" for n in names))
+    r = subprocess.run(["lake", "env", "lean", gen], cwd=LEAN, capture_output=True, text=True, timeout=1800)
     out = r.stdout + r.stderr
     res = {}
     for m in re.finditer(r"'([^']+)' depends on axioms: \[([^\]]*)\]", out):
